@@ -108,11 +108,12 @@ theorem drain_spec {U D : List BlockAbs} (hwf : WF U) (hDU : ∀ b ∈ D, b ∈ 
             · exact hk
         · intro b hb hp
           rw [hss, hss, he0]
-          rcases hi.deliv b hb hp with x | x | x | x
+          rcases hi.deliv b hb hp with x | x | x | x | x
           · exact Or.inl x
           · exact Or.inr (Or.inl (hperm.mem_iff.mpr x))
           · exact Or.inr (Or.inr (Or.inl x))
-          · exact Or.inr (Or.inr (Or.inr x))
+          · exact Or.inr (Or.inr (Or.inr (Or.inl x)))
+          · exact Or.inr (Or.inr (Or.inr (Or.inr x)))
       have hkids : ∀ k ∈ (s.orphans.filter (fun p => p.1.parent == h)).map (·.1), (s0.status k.parent).data = true := by
         intro k hk
         obtain ⟨o, ho, rfl⟩ := List.mem_map.mp hk
@@ -218,7 +219,7 @@ theorem addOrphan_spec {U D : List BlockAbs} {s : State} {b : BlockAbs} (hi : In
     simp only [List.mem_cons] at hx
     rcases hx with hx | hx
     · subst hx; right; left; rw [hpool]; simp
-    · rcases hi.deliv x hx hp with y | y | y | y
+    · rcases hi.deliv x hx hp with y | y | y | y | y
       · exact Or.inl y
       · unfold Pool at y
         simp only [List.append_nil, List.mem_map] at y
@@ -226,15 +227,17 @@ theorem addOrphan_spec {U D : List BlockAbs} {s : State} {b : BlockAbs} (hi : In
         rcases hkeep o ho with z | z
         · right; left; rw [hpool]; simp only [List.mem_append, List.mem_map, List.mem_singleton]
           exact Or.inl ⟨o, z, rfl⟩
-        · exact Or.inr (Or.inr (Or.inr z))
+        · exact Or.inr (Or.inr (Or.inr (Or.inl z)))
       · exact Or.inr (Or.inr (Or.inl y))
-      · exact Or.inr (Or.inr (Or.inr (hev _ y)))
+      · exact Or.inr (Or.inr (Or.inr (Or.inl (hev _ y))))
+      · exact Or.inr (Or.inr (Or.inr (Or.inr y)))
 
 /-- a newly delivered block joins `D` once the invariant can account for it -/
 theorem inv_add_D {U D : List BlockAbs} {Q : List Hash} {P : List BlockAbs} {s : State} {b : BlockAbs}
     (hi : Inv U D Q P s)
     (hb : b.preOk = true → (s.status b.hash).data = true ∨ b ∈ Pool s P ∨
-      (s.status b.parent).knownInvalid = true ∨ b.hash ∈ s.evicted) : Inv U (b :: D) Q P s := by
+      (s.status b.parent).knownInvalid = true ∨ b.hash ∈ s.evicted ∨ (s.status b.hash).knownInvalid = true) :
+    Inv U (b :: D) Q P s := by
   refine ⟨cinv_mono_D (fun x hx => List.mem_cons_of_mem _ hx) hi.c, hi.max, ?_, hi.wND, hi.oPar, ?_⟩
   · intro w hw
     obtain ⟨a, c, d⟩ := hi.wOK w hw
@@ -324,11 +327,12 @@ theorem processBlock_spec {U D : List BlockAbs} {s : State} {b : BlockAbs} (hwf 
               simp only [List.mem_cons] at hx
               rcases hx with hx | hx
               · subst hx; right; left; unfold Pool; simp
-              · rcases hi.deliv x hx hp with y | y | y | y
+              · rcases hi.deliv x hx hp with y | y | y | y | y
                 · exact Or.inl y
                 · right; left; unfold Pool at y ⊢; simp at y ⊢; exact Or.inl y
                 · exact Or.inr (Or.inr (Or.inl y))
-                · exact Or.inr (Or.inr (Or.inr y))
+                · exact Or.inr (Or.inr (Or.inr (Or.inl y)))
+                · exact Or.inr (Or.inr (Or.inr (Or.inr y)))
           obtain ⟨h1, h2, h3, h4, h5, h6⟩ := maybeAccept_spec hwf hDU' hiP hpd
           generalize maybeAccept s b = res at h1 h2 h3 h4 h5 h6 ⊢
           obtain ⟨s1, o⟩ := res
@@ -484,7 +488,7 @@ theorem processHeaderCore_spec {U D : List BlockAbs} {s : State} {b : BlockAbs} 
           · rw [hpool]; exact hi.wND
           · intro o ho hd; rw [horph1] at ho; rw [hdat] at hd; rw [hki]; exact hi.oPar o ho hd
           · intro x hx hp
-            rw [hdat, hki, hpool, hev1]
+            rw [hdat, hki, hki, hpool, hev1]
             exact hi.deliv x hx hp
 
 theorem inv_congr {U D : List BlockAbs} {Q : List Hash} {P : List BlockAbs} {s s' : State} (hi' : s'.idx = s.idx)
